@@ -356,3 +356,94 @@ def c19_export(ci, atts, op, exists, append, nice):
         return recs != exp, f'records {recs} expected {exp}'
     except Exception as e:  # noqa
         return True, f'{op}({atts}) raised {type(e).__name__}: {e}'
+
+
+# ------------------------------------------------------------------ C13
+@replay('c13_roundtrip')
+def c13_roundtrip(d):
+    import pytrs
+    try:
+        cf = pytrs.Config.from_dict(d)
+        txt = cf.decompile_to_text()
+        back = pytrs.Config(txt)
+    except Exception as e:  # noqa
+        return True, f'raised {e!r}'
+    diffs = {}
+    for att in pytrs.Config._CONFIG_ATTRIBUTES:
+        want = d.get(att)
+        if att in ('default_ns', 'default_ew') and want is not None:
+            want = want.lower()
+        if getattr(back, att) != want or type(getattr(back, att)) is not type(want):
+            diffs[att] = (getattr(back, att), want)
+    return bool(diffs), f'text {txt!r}; diffs (observed, expected): {diffs}'
+
+
+@replay('c13_unknown')
+def c13_unknown(txt):
+    import pytrs
+    try:
+        pytrs.Config(txt)
+    except ValueError as e:
+        return False, f'ValueError: {e}'
+    return True, f'Config({txt!r}) accepted'
+
+
+@replay('c13_plss')
+def c13_plss(group, c, k, channel):
+    import pytrs
+    from props.c13_ref import TEXTS, PLSS_TEXTS, cfg_text, snapshot_desc
+    eff = {n: (k[n] if n in k else c[n]) for n in c}
+    if ('qq_depth' in k or 'qq_depth_min' in k or 'qq_depth_max' in k) and 'qq_depth' not in k and 'qq_depth' in eff:
+        eff['qq_depth'] = None
+    out = []
+    for tk in PLSS_TEXTS[group]:
+        text = TEXTS[tk]
+        ref = pytrs.PLSSDesc(text, config=cfg_text(eff))
+        if channel:
+            d = pytrs.PLSSDesc(text, config=cfg_text(c))
+        else:
+            d = pytrs.PLSSDesc(text, wait_to_parse=True)
+            d.config = cfg_text(c)
+        d.parse(**k)
+        if snapshot_desc(d) != snapshot_desc(ref):
+            out.append((text, snapshot_desc(d), snapshot_desc(ref)))
+    return bool(out), f'config {cfg_text(c)!r} + parse(**{k}) vs config {cfg_text(eff)!r}: ' + '; '.join(
+        f'{t!r}: got {a} expected {b}' for t, a, b in out)[:1200]
+
+
+@replay('c13_config_only')
+def c13_config_only(w, s, kw, channel):
+    import pytrs
+    from props.c13_ref import TEXTS, cfg_text
+    text = TEXTS['qq']
+    c = {'wait_to_parse': w, 'suppress_lot_divs': s, 'parse_qq': True}
+    if channel:
+        d = pytrs.PLSSDesc(text, config=cfg_text(c)) if kw is None else pytrs.PLSSDesc(text, config=cfg_text(c), wait_to_parse=kw)
+    else:
+        d = pytrs.PLSSDesc(text, wait_to_parse=True)
+        d.config = cfg_text(c)
+        if not (w if kw is None else kw):
+            d.parse()
+    waits = bool(w) if kw is None else bool(kw)
+    if waits:
+        return len(d.tracts) != 0, f'config {cfg_text(c)!r}, init wait_to_parse={kw}: {len(d.tracts)} tracts although waiting was requested'
+    lots = d.tracts[0].lots if len(d.tracts) == 1 else None
+    return lots != (['L1'] if s else ['N2 of L1']), f'config {cfg_text(c)!r}: lots {lots}'
+
+
+@replay('c13_tract')
+def c13_tract(c, k, channel):
+    import pytrs
+    from props.c13_ref import cfg_text, snapshot_tract
+    desc = 'S/2N/2NE/4, NW, N/2 of Lot 1, Lot 2(40.1)'
+    eff = {n: (k[n] if n in k else c[n]) for n in c}
+    if ('qq_depth_min' in k or 'qq_depth_max' in k) and 'qq_depth' not in k and 'qq_depth' in eff:
+        eff['qq_depth'] = None
+    ref = pytrs.Tract(desc, trs='154n97w14', config=cfg_text(eff), parse_qq=True)
+    if channel:
+        t = pytrs.Tract(desc, trs='154n97w14', config=cfg_text(c))
+    else:
+        t = pytrs.Tract(desc, trs='154n97w14')
+        t.config = cfg_text(c)
+    t.parse(**k)
+    return snapshot_tract(t) != snapshot_tract(ref), f'got {snapshot_tract(t)} expected {snapshot_tract(ref)}'
